@@ -191,7 +191,14 @@ func solveAll(gens []*Gen, prelude string, outDir string, timeoutS int, workers 
 			for j := range ch {
 				file := filepath.Join(outDir, sanitize(j.o.Name)+".smt2")
 				os.WriteFile(file, []byte(j.g.smtText(j.o, prelude, false)), 0o644)
-				r := discharge(file, timeoutS)
+				var r SolveResult
+				if j.o.Must == "sat" {
+					// vacuity probe: only an unsat answer matters (contradictory
+					// assumptions show up fast); one solver, short budget
+					r = runSolver(solvers[0], file, 3)
+				} else {
+					r = discharge(file, timeoutS)
+				}
 				if r.Status == "sat" && j.o.Must != "sat" {
 					// get a model from the solver that answered
 					mfile := filepath.Join(outDir, sanitize(j.o.Name)+".model.smt2")
